@@ -49,7 +49,7 @@ type nodeStats struct {
 	W24ForeignBefore, W24ReinitInnerID, W24LookAlikeIDs, W24HeldBack int // nodew24.go
 	W24DroppedRounds, W24DroppedUserMsgs int // nodew24d.go
 	CancelledRounds                                                                                                                                                                     int
-	C08Late, C08StampsMoved, PrefilledResults, JSONVariants, KeylessReinits, ReinitVariants, ForgedOwnName, CollectedHere, C08RealLoop, ProposalsStored, ReorderedReinits, ErrorResults int
+	C08Late, C08StampsMoved, PrefilledResults, JSONVariants, KeylessReinits, ReinitVariants, ForgedOwnName, CollectedHere, C08RealLoop, ProposalsStored, ReorderedReinits, ErrorResults, ConcurrentDuplicates int
 	StaleSignatures, ForgedAnnouncements, ForgedAnnouncementsNoRound, RekeyedRoundBoards, RekeyedRoundCopies                                                                            int
 }
 
@@ -736,6 +736,34 @@ func (r *nodeRun) mutate(c *cluster, obs *vnode, m storage.Message, otherRound s
 				}
 			}
 		}
+		// an answer to the current batch, signed by its (registered) sender, whose list of partial signatures names a message
+		// the batch does not hold, or one message twice: shown before EVERY genuine answer - also before the one that completes
+		// the threshold, where the node goes on to reconstruct from what it collected
+		if m.Event == "event_signing_partial_sign_received" {
+			var req requests.SigningProposalBatchPartialSignRequests
+			if json.Unmarshal(m.Data, &req) == nil && len(req.PartialSigns) > 0 {
+				for _, kind := range []string{"ghost-id", "extra-ghost", "same-id-twice", "no-signatures"} {
+					q := req
+					q.PartialSigns = append([]requests.PartialSign(nil), req.PartialSigns...)
+					switch kind {
+					case "ghost-id":
+						q.PartialSigns[0].MessageID = "no-such-message"
+					case "extra-ghost":
+						q.PartialSigns = append(q.PartialSigns, requests.PartialSign{MessageID: "no-such-message", Sign: req.PartialSigns[0].Sign})
+					case "same-id-twice":
+						q.PartialSigns = append(q.PartialSigns, q.PartialSigns[0])
+					case "no-signatures":
+						q.PartialSigns = []requests.PartialSign{}
+					}
+					if bz, err := json.Marshal(q); err == nil {
+						y := clone()
+						y.Data = bz
+						y.Signature = ed25519.Sign(c.nodes[senderIdx].kp.Priv, y.Data)
+						out = append(out, mutation{name: "partial-" + kind, msg: y, prop: "C18", try: true})
+					}
+				}
+			}
+		}
 		// a signing proposal of a registered participant whose tasks name positions of the built-in list
 		// nobody would propose: before it, across its end, reversed (the API refuses them; the board does not)
 		if m.Event == "event_signing_start" {
@@ -906,7 +934,7 @@ func (r *nodeRun) scenario(outDir string, n, t int, twoRounds bool) {
 					half = perMsg // self-addressed: everything is tried on the state the genuine message will meet
 				}
 				for i, mu := range muts {
-					if i < half || mu.name == "same-batch-other-tasks" {
+					if i < half || mu.name == "same-batch-other-tasks" || strings.HasPrefix(mu.name, "partial-") {
 						apply(mu) // before the genuine message
 					}
 				}
